@@ -15,4 +15,4 @@ Extraction "msg_model.ml"
   step run empty_msg spec_msg content_msg frame ftype_of_tc flattenable elem_size wire_size cpp_size depth_msg fields_len repr_count
   tc_bool tc_double tc_float tc_int64 tc_int32 tc_int16 tc_int8 tc_message tc_pointer tc_point tc_rect
   tc_string tc_raw tc_tag tc_any enc_default takeN
-  tmpl_flatten tmpl_flattened_size tmpl_unflatten tmpl_of_msg same_shape.
+  tmpl_flatten tmpl_flattened_size tmpl_unflatten tmpl_of_msg same_shape tmpl_hash tmpl_merge le_enc le_dec.
